@@ -12,7 +12,7 @@ RULE = ('Exhaustive through the builder: toy component with <= 3 ports per side 
         'requires port); per side every exposed port set (8) x every sts selection x every mts '
         'selection out of {ALL, REMAINING, NONE} + all non-empty subsets of {a,b,c,unknown} (18 x 18), '
         'the other side neutral: construction -> match -> Builder.build each. Thorough: the full '
-        'product of both sides at construction+match level (6.7 M), every 500th case built. Sampled '
+        'product of both sides at construction+match level (6.7 M), every 100th case built. Sampled '
         '(Hypothesis): generated shell models with up to 6 ports and random selections incl. names of '
         'the other side / injected / unknown. Oracle: three-valued reference (vf/model.py '
         'ports_semantics): MUST_REJECT => AdvShellError and no files; MUST_ACCEPT => files, accessor '
@@ -174,7 +174,7 @@ def labels(case):
 
 
 def product_sweep(ctx):
-    """Thorough: both sides at once, construction+match level, every 500th case built."""
+    """Thorough: both sides at once, construction+match level, every 100th case built."""
     name = 'product'
     ctx.clauses_run.append(name)
     if ctx.replay is not None:
@@ -195,7 +195,7 @@ def product_sweep(ctx):
                         for rm in SELS:
                             evals += 1
                             case = {'prov': pexp, 'req': rexp, 'inj': [], 'psel': [ps, pm],
-                                    'rsel': [rs, rm], 'build': evals % 500 == 0}
+                                    'rsel': [rs, rm], 'build': evals % 100 == 0}
                             nt += nontrivial(case)
                             try:
                                 check_case(case)
